@@ -12,6 +12,14 @@ Fixpoint sqz {A} (s : shape) (l : list A) : list A :=
   | _, _ => []
   end.
 
+(* entries of l at the positions whose mode size differs from 1 (tensor.squeeze since /repo 649a706: np.where(shape != 1),
+   np.squeeze); the same list as sqz when every size is positive, and a size-0 mode is KEPT *)
+Fixpoint sqn {A} (s : shape) (l : list A) : list A :=
+  match s, l with
+  | d :: s', x :: l' => if Nat.eqb d 1 then sqn s' l' else x :: sqn s' l'
+  | _, _ => []
+  end.
+
 (* np.setdiff1d(arange(N), old): the modes that are kept, ascending *)
 Definition keep_modes (N : nat) (old : list nat) : list nat :=
   filter (fun k => negb (existsb (Nat.eqb k) old)) (seq 0 N).
@@ -39,11 +47,13 @@ Definition permute_d (T : dense V) (p : list nat) : option (dense V) :=
 Definition reshape_d (T : dense V) (s' : shape) : option (dense V) :=
   if Nat.eqb (size (dshape T)) (size s') then Some (np_reshapeF v0 T s') else None.
 
-(* tensor.squeeze: no singleton -> copy; all singleton -> data.item(); else np.squeeze(data) *)
+(* tensor.squeeze (as repaired by /repo 649a706, N-C07-6): np.all(shape != 1) -> copy; idx = np.where(shape != 1);
+   idx empty (every mode a singleton) -> data.item(); else np.squeeze(data).  A mode of size 0 is not a singleton: it is
+   kept, and the result holds no element *)
 Definition squeeze_d (T : dense V) : sq_res (dense V) :=
   let s := dshape T in
-  if forallb (Nat.ltb 1) s then SqT T
-  else match sqz s s with
+  if forallb (fun d => negb (Nat.eqb d 1)) s then SqT T
+  else match sqn s s with
        | [] => SqScalar (nth 0 (ddata T) v0)
        | s' => SqT (mkDense s' (ddata T))
        end.
